@@ -2,7 +2,7 @@ from engine import Obl
 
 META = {
  "level_text": "CBMC bounded model checking of the server's reaction to the death of an established shared-memory client, through the real lib/ipcs.c (dispatch, disconnect, unref), lib/ipc_setup.c (handle_new_connection, qb_ipc_us_recv, remove_tempdir) and the real server side of lib/ipc_shm.c (connect, disconnect) over a ghost file system and descriptor table: the death shows as POLLHUP, as end-of-file on the setup socket under POLLIN, or as POLLNVAL, with and without an application-held reference, for ARBITRARY peer credentials; plus the death during the handshake at the point where the connection is fully set up (rings, directory, main-loop registration) and the reply cannot be sent (EPIPE): nothing may remain. Decided: the dispatcher reports the dead peer, closed is invoked once and before destroyed, destroyed exactly once (only after the application dropped its reference), no message callback, all three ring files closed exactly once, the temporary directory removed, the descriptor removed from the main loop and then closed exactly once, the connection unlisted, the service left with its creator's reference.",
- "level_note": "ONLY the server side of the shared-memory transport after the connection was established, one connection, empty request queue. NOT decided: death at earlier points of the handshake (partial request bytes: harness c06_auth.c does not finish), mid-request or with queued messages, other clients being served meanwhile, the socket transport, the whole client side of C03 (server death: deadlines in lib/ipcc.c, forced clean-up of the dead server's files), the SIGBUS guard (setjmp/longjmp are not supported by CBMC: modelled as 'no signal'), and what the kernel reports. Ring files are the contract stub of C05. Trusted: CBMC, ghost file system.",
+ "level_note": "ONLY the server side of the shared-memory transport after the connection was established, one connection; request queue empty, or two requests queued when the hang-up is reported (with and without request flow control). NOT decided: death at earlier points of the handshake (partial request bytes: harness c06_auth.c does not finish), mid-request, end-of-file with queued messages, other clients being served meanwhile, the socket transport, the whole client side of C03 (server death: deadlines in lib/ipcc.c, forced clean-up of the dead server's files), the SIGBUS guard (setjmp/longjmp are not supported by CBMC: modelled as 'no signal'), and what the kernel reports. Ring files are the contract stub of C05. Trusted: CBMC, ghost file system.",
  "technique": "CBMC bounded model checking (SAT) of real C code over a ghost file-system / descriptor table; one obligation per way the death is observed",
  "assumptions": ["allocation never fails", "no SIGBUS during ring tear-down"],
 }
@@ -15,6 +15,14 @@ def obligations(tier):
                            bounds={"connections": 1, "death_observed_as": dn, "application_reference": bool(a), "queued_requests": 0, "uid/gid/pid": "all 32-bit values"},
                            units=["lib/ipcs.c", "lib/ipc_setup.c", "lib/ipc_shm.c (server side)"],
                            stubs=["ghost file system: mkdtemp/chmod/chown/rmdir", "qb_rb_open/chown/chmod/close/chunks_used: contract stubs", "send/recv/close: descriptor table", "poll handlers: recording stubs", "setjmp = 0 (no SIGBUS)", "seqenv.h", "nolog.h"]))
+    # POLLHUP / POLLNVAL while requests are still queued, with and without request flow control
+    for d, dn in ((1, "pollhup"), (3, "pollnval")):
+        for fc in (0, 1):
+            obs.append(Obl("death-%s-queued2-fc%d" % (dn, fc), "c03_death.c", defs=["DEATH=%d" % d, "APP_REF=0", "QLEN=2"] + (["FC"] if fc else []),
+                           unwind=8, unwindset={"strlen.0": 17, "verif_strrchr": 17}, timeout=600, mem_gb=4, object_bits=9,
+                           bounds={"connections": 1, "death_observed_as": dn, "queued_requests": 2, "flow_control": bool(fc), "uid/gid/pid": "all 32-bit values"},
+                           units=["lib/ipcs.c", "lib/ipc_setup.c", "lib/ipc_shm.c (server side)"],
+                           stubs=["ghost file system", "ring contract stubs (chunks_used = 2)", "descriptor table", "setjmp = 0 (no SIGBUS)", "seqenv.h", "nolog.h"]))
     # death DURING the handshake, at the boundary 'everything came up, the reply cannot be sent' (EPIPE): PART 2 of c05_admit.c
     for a in (0, 1):
         obs.append(Obl("death-handshake-reply-auth%d" % a, "c05_admit.c", defs=["PART=2", "FAIL_AT=11", "SET_AUTH=%d" % a],
